@@ -237,6 +237,9 @@ def select_scatterer_by_illumination(scatterer, illum):
         elif isinstance(val, xr.DataArray):
             try:
                 selected_val = val.sel(illumination=illum).values
+                if selected_val.ndim == 0:
+                    # one number, as when it is given in a dictionary
+                    selected_val = selected_val.item()
             except (KeyError, ValueError):
                 pass
         select_parameters[key] = selected_val
